@@ -8,7 +8,8 @@ from ..runner import Result
 from ..ref import potentials as rp
 
 ID = 'C02'
-RULE = ('Generated: structures of straight and tapered wires, arcs and helices (junctions in every end-to-end '
+RULE = ('Generated: structures of straight and tapered wires, arcs and helices, stepped-diameter chains of collinear wires '
+        'on a dyadic lattice (bit-identical segment vectors across junctions of different radii) (junctions in every end-to-end '
         'combination with different radii and segment lengths, grounded ends at either end, thin and thick radii, '
         'free space and ideal ground); from every model up to 40 ordered pulse pairs whose centres are >= 2.5 '
         'segment lengths apart, stratified over interior / junction / grounded observer and source pulses.  '
@@ -19,15 +20,19 @@ RULE = ('Generated: structures of straight and tapered wires, arcs and helices (
         'a junction or grounded pulse, legs of different direction / length / radius, or an image term.')
 BUDGET = {'quick': {'examples': 800, 'wall': 220}, 'thorough': {'examples': 15000, 'wall': 1500}}
 ASSUMPTIONS = ['reference topology (pulse paths) validated by C12, segment end points of tapered wires by C13']
-LABEL_FLOORS = {'env-ideal': 0.3, 'pair-junc': 0.3, 'pair-gnd': 0.1, 'thick': 0.3, 'thin': 0.2, 'curve': 0.1,
+LABEL_FLOORS = {'env-ideal': 0.3, 'pair-junc': 0.3, 'pair-gnd': 0.1, 'thick': 0.3, 'thin': 0.2, 'curve': 0.1, 'tmpl-stepped-chain': 0.12,
                 'gnd-end2-nonvertical': 0.02}
 
 
 @st.composite
 def case_strategy(draw, big=False):
     thick = draw(st.sampled_from([None, True, False]))
-    if draw(st.integers(0, 4)) == 0:
+    u = draw(st.integers(0, 9))
+    if u <= 1:
         case = draw(gen.curve_antenna(env_kinds=('free', 'ideal'), nsrc=(1, 1)))
+    elif u <= 3:
+        # collinear wires of different radii whose segment vectors are bit-identical across the junction
+        case = draw(gen.stepped_chain(env_kinds=('free', 'ideal'), nsrc=(1, 1), thick=thick, max_seg=8 if not big else 14))
     else:
         case = draw(gen.antenna(env_kinds=('free', 'ideal'), max_wires=4, max_seg=8 if not big else 14, nsrc=(1, 1),
                                 taper_prob=0.15, thick=thick, star=1, min_seg=3))
